@@ -87,6 +87,8 @@ def fixed_elements(cd, t) -> int:
     k = t[0]
     if k == "fixed":
         return t[2] * max(1, fixed_elements(cd, t[1]))
+    if k == "var":
+        return min(t[2], 10) * fixed_elements(cd, t[1])  # generated lengths are budgeted, element content is not
     if k == "ref":
         d = cd.u[t[1]]
         subs = [fixed_elements(cd, f["type"]) for f in d["fields"] if "type" in f]
